@@ -123,7 +123,6 @@ class _DelayNotKnowableError(ArithmeticError):
 def _delay(when: dawgie.EVENT) -> datetime.timedelta:
     now = datetime.datetime.now(datetime.UTC)
     then = now
-    today = now.isoweekday() - 1
 
     if when.moment.boot is not None:
         if when in booted:
@@ -131,53 +130,49 @@ def _delay(when: dawgie.EVENT) -> datetime.timedelta:
 
         booted.append(when)
     else:
-        if when.moment.day is not None:
-            then = datetime.datetime(
-                year=when.moment.day.year,
-                month=when.moment.day.month,
-                day=when.moment.day.day,
+        # defer() fires an event whose delay is 300 seconds or less, so an
+        # occurrence up to 300 seconds old is still the one to report; the
+        # answer is the first occurrence that is not older than that
+        due = now - datetime.timedelta(seconds=300)
+
+        def at(year, month, day):
+            return datetime.datetime(
+                year=year,
+                month=month,
+                day=day,
                 hour=when.moment.time.hour,
                 minute=when.moment.time.minute,
                 second=when.moment.time.second,
                 tzinfo=datetime.UTC,
             )
-            pass
+
+        if when.moment.day is not None:
+            then = at(
+                when.moment.day.year,
+                when.moment.day.month,
+                when.moment.day.day,
+            )
 
         if when.moment.dom is not None:
-            nm = now.month + 1
-            then = datetime.datetime(
-                year=now.year + (1 if nm == 13 else 0),
-                month=1 if nm == 13 else nm,
-                day=when.moment.dom,
-                hour=when.moment.time.hour,
-                minute=when.moment.time.minute,
-                second=when.moment.time.second,
-                tzinfo=datetime.UTC,
-            )
-            pass
+            year, month = due.year, due.month
+            # at most 12 months away: every day 1..31 exists in January
+            for _ in range(13):
+                try:
+                    then = at(year, month, when.moment.dom)
+                    if due <= then:
+                        break
+                except ValueError:
+                    pass  # this month is too short to have that day
+                year, month = (year + 1, 1) if month == 12 else (year, month + 1)
+            else:
+                raise ValueError(f'no month has a day {when.moment.dom}')
 
         if when.moment.dow is not None:
-            dd = datetime.timedelta(
-                days=(
-                    (7 + when.moment.dow - today)
-                    if when.moment.dow < today
-                    else (when.moment.dow - today)
-                )
+            then = at(due.year, due.month, due.day) + datetime.timedelta(
+                days=(when.moment.dow - due.weekday()) % 7
             )
-            then = (
-                datetime.datetime(
-                    year=now.year,
-                    month=now.month,
-                    day=now.day,
-                    hour=when.moment.time.hour,
-                    minute=when.moment.time.minute,
-                    second=when.moment.time.second,
-                    tzinfo=datetime.UTC,
-                )
-                + dd
-            )
-            pass
-        pass
+            if then < due:
+                then += datetime.timedelta(days=7)
 
     return then - now
 
